@@ -136,8 +136,11 @@ Definition advance_to (s : seg) (pos : Z) : seg * ares :=
   | RdErr => (s', AErr)
   end.
 
-(** segment.advance (used by Queue.Advance) *)
+(** segment.advance (used by Queue.Advance).  Since fix a852c65657 it returns io.EOF
+    without touching anything when there is no block left ([pos >= size - 8]); before
+    that it read the footer as a record length. *)
 Definition seg_advance (s : seg) : seg * ares :=
+  if spos s >=? ssize s - 8 then (s, AEOF) else
   match read_at (sd s) (spos s) 8 with
   | RdOk bs => advance_to s (spos s + to_i64 (decn bs) + 8)
   | RdEOF => (s, AEOF)
